@@ -139,8 +139,8 @@ def register_model(reg):
         C03.register(reg)
     reg.field("Track", PTS, "list[Obs]")
     reg.field("Track", DICO, "dict[str,int]")
-    reg.field("Track", "uid", "int")
-    reg.field("Track", "tid", "int")
+    reg.field("Track", "uid", "any")
+    reg.field("Track", "tid", "any")
     reg.field("Track", "base", "opt[ECEFCoords]")
     reg.field("Track", "no_data_value", "opt[float]")
     reg.field("Obs", "position", "ENUCoords")
